@@ -14,7 +14,7 @@ CHECKS = {
    text="All tuples over an 18-string boundary-shifting pool (arity 1-3, quick: 11 strings for arity 3), 8 vector kinds incl. local variants, list and map request forms in every key order, wrong-arity/wrong-key requests and removal are executed on the real code and compared child by child with a BTreeMap reference; exhaustive within the pool.",
    note="strings outside the pool; true 64-bit FNV collisions are out of reach", ref="6 C05"),
  "C09": dict(engine="enum", technique="bounded-exhaustive enumeration of strings in every name position, label clashes and registry settings vs. regex-equivalent predicate; gather output validated",
-   text="Every string of length <=3 over a 12-character pool in every name position of 12 constructors, all (namespace|subsystem,name) pairs, all const/variable label assignments over {a,b,le}, registry prefix/common-label settings; each accepted metric is registered, sampled, gathered and the gathered names validated.",
+   text="Every string of length <=3 over a 12-character pool in every name position of 12 constructors, all (namespace|subsystem,name) pairs, all const/variable label assignments over {a,b,le} (lists up to 3, wide shapes with 7-11 labels), registry prefix/common-label settings; each accepted metric is registered, sampled, gathered and the gathered names validated.",
    note="characters outside the pool, names longer than 3; common label `le` + histogram not judged", ref="6 C09"),
  "C17": dict(engine="enum", technique="bounded-exhaustive argument sweep of every Result-returning API under catch_unwind (debug assertions + overflow checks on)",
    text="Every listed fallible API is called over explicit finite argument pools (strings, label lists/maps of every cardinality class, f64 bucket lists/parameters, registry histories, families of every MetricType incl. mismatched payloads, failing writers); each call must return, and documented-invalid input must give Err.",
@@ -23,49 +23,49 @@ CHECKS = {
    text="All histories of register/unregister over an 8 (thorough 11) collector pool with overlapping names/help/const/variable labels and multi-descriptor collectors are explored to a fixpoint (state = real registry dump + reference state); every call's result class and gather() after every call are compared with the reference; tracelessness of failed calls is judged behaviourally by exploring every continuation. In addition 2-3 threads issue register/unregister/gather concurrently on one registry under the vsched scheduler (all program pairs of <=2 calls and all 1-call triples); every interleaving must be linearizable w.r.t. the same reference.",
    note="collector pool is fixed; collisions of 64-bit ids and disagreement inside one collector's own descriptor list are not judged", ref="6 C06, 13"),
  "C12": dict(engine="statespace", technique="exhaustive enumeration of operation histories (stateright BFS, no state merging) on real local metrics vs. pending/flushed ledger; deeper merged-state BFS in addition",
-   text="Every history up to depth 5 (vector models 4; thorough 6/5) over the operation menus of six local-metric models is replayed on fresh real objects and compared with a ledger after every step; a second BFS merges equal ledger states and reaches depth 7.",
+   text="Every history up to depth 5 (vector models 4; thorough 6/5) over the operation menus of six local-metric models (incl. drop during unwinding, negative observations, clone, remove) is replayed on fresh real objects and compared with a ledger after every step; a second BFS merges equal ledger states and reaches depth 7.",
    note="<=3 live local handles, 2 keys, fixed update amounts (incl. a negative observation)", ref="6 C12"),
  "C01": dict(engine="vsched", technique="stateless exhaustive exploration of thread interleavings (sleep sets, unbounded) of the real code under a controlled scheduler + Wing-Gong linearizability check",
    text="For 4 counter flavours, all unordered pairs of <=2-operation programs and all triples of 1-operation programs over {inc_by, get, reset, local flush, collect, local clone+flush,...} are run under the vsched scheduler on every interleaving of their atomic/lock operations (sleep-set reduced, no preemption bound); each execution's call/return history incl. quiescent reads must be linearizable w.r.t. a sequential counter.",
    note="sequentially consistent interleavings (exact for a single atomic cell); <=3 threads, <=2 ops per thread", ref="6 C01"),
  "C11": dict(engine="vsched", technique="stateless exhaustive exploration of thread interleavings (sleep sets, unbounded) of the real code under a controlled scheduler + Wing-Gong linearizability check",
-   text="Same engine as C01 over 4 gauge flavours and the alphabet {add, sub, inc, dec, set, get, collect}: every interleaving of all program pairs (<=2 ops) and 1-op triples; histories must be linearizable w.r.t. a sequential gauge.",
+   text="Same engine as C01 over 4 gauge flavours and the alphabet {add, sub, inc, dec, set, get, collect}: every interleaving of all program pairs (<=2 ops) and 1-op triples; histories must be linearizable w.r.t. a sequential gauge; integer gauges are additionally driven next to i64::MAX/MIN with exact wrapping arithmetic.",
    note="sequentially consistent interleavings (exact for a single atomic cell); <=3 threads, <=2 ops per thread", ref="6 C11"),
  "C18": dict(engine="statespace", technique="exhaustive enumeration of operation histories (stateright BFS) on real timers with a virtual clock vs. exactly-once reference",
-   text="Every history up to depth 5 (thorough 6; merged-state BFS to depth 7/9) of start/observe_duration/stop_and_record/stop_and_discard/drop/drop-on-other-thread/observe_closure_duration over <=3 timers of a shared and of a local histogram, interleaved with forward and backward steps of a virtual clock, is replayed on the real code; after every step the histogram must have grown by exactly one observation of max(now-start,0) or by none.",
+   text="Every history up to depth 5 (thorough 6; merged-state BFS to depth 7/9) of start/observe_duration/stop_and_record/stop_and_discard/drop/drop-during-unwinding/drop-on-other-thread/observe_closure_duration (durations below, on and above the largest bucket bound, pending samples in the parent local histogram) over <=3 timers of a shared and of a local histogram, interleaved with forward and backward steps of a virtual clock, is replayed on the real code; after every step the histogram must have grown by exactly one observation of max(now-start,0) or by none.",
    note="clock is the verif time seam; coarse clock (nightly feature) not built", ref="6 C18"),
  "C02": dict(engine="vsched", technique="stateless exhaustive exploration of thread interleavings of the real histogram under a controlled scheduler (sleep sets unbounded / preemption-bounded) + snapshot-is-a-cut oracle + vector-clock happens-before audit of the hand-off",
    text="Observer/batcher/collector drivers (2-4 threads, 1-3 collections, direct / HistogramVec / Registry::gather collect paths, three start states) are run on every interleaving of their atomic, lock and call-boundary steps (Mode U unbounded with sleep sets where it completes, else all schedules with <=2 (thorough 3) preemptions); every snapshot must decode (distinct power-of-two observations) to one set S consistent in count/sum/buckets, bounded by real time and prefix-closed per thread. Every execution is additionally audited with vector clocks built from the orderings the code passes: each draining access to a data cell must be happens-before-ordered with every other thread's access to it through the sync cells alone.",
    note="explored executions are SC interleavings; memory-model coverage is the hb audit of explored executions, not an enumeration of weak executions; Mode B drivers hold up to the stated preemption bound", ref="6 C02"),
  "C03": dict(engine="vsched", technique="stateless exhaustive exploration of thread interleavings of the real histogram under a controlled scheduler + conservation/growth/batch-atomicity/termination oracles",
-   text="Drivers with >=3 collections, 1-2 collector threads, direct observers, local-batch flushers and get_sample_* readers are run on every interleaving (Mode U / preemption bound as C02): snapshots ordered in real time grow, a batch is in a snapshot entirely or not at all, the quiescent snapshot and get_sample_count/sum describe exactly all observations, no deadlock/livelock, and a collector that spins does so only while an observe/flush call is in flight.",
+   text="Drivers with >=3 collections, 1-2 collector threads, direct observers, local-batch flushers and get_sample_* readers are run on every interleaving (Mode U / preemption bound as C02): snapshots ordered in real time grow, a batch is in a snapshot entirely or not at all, the quiescent snapshot and get_sample_count/sum describe exactly all observations, no deadlock/livelock (also in the quiescent reads, which run under the scheduler), and a collector that spins does so only while an observe/flush call is in flight; NaN-observation drivers are judged by counts and termination.",
    note="SC interleavings; <=4 threads; Mode B drivers hold up to the stated preemption bound", ref="6 C03"),
  "C10": dict(engine="vsched+statespace", technique="stateless exhaustive exploration of thread interleavings of the real vector (sleep sets / preemption bound) + Wing-Gong linearizability vs. map-of-children spec; exhaustive enumeration of sequential histories (stateright BFS)",
-   text="(E1) all program pairs (<=2 ops, quick: total length <=3) and five 3-thread drivers over {get-or-create+update, remove, reset, collect, update through a kept handle} on 3 vector flavours (list and map request forms mixed) from 3 start states, on every interleaving of lock/atomic/call-boundary steps; histories incl. a quiescent collect must be linearizable w.r.t. a map key->child, child values decoded per child with interval semantics. (E2) every sequential history up to depth 5 (thorough 6) replayed against the reference after each step.",
+   text="(E1) all program pairs (<=2 ops, quick: total length <=3) all triples of 1-call programs and five 3-thread drivers over {get-or-create+update, remove, reset, collect, update through a kept handle} on 3 vector flavours (list and map request forms mixed) from 3 start states, on every interleaving of lock/atomic/call-boundary steps; histories incl. a quiescent collect must be linearizable w.r.t. a map key->child, child values decoded per child with interval semantics. (E2) every sequential history up to depth 5 (thorough 6) replayed against the reference after each step.",
    note="SC interleavings; 2 keys, <=3 threads; 3-thread HistogramVec drivers bounded to 2 preemptions in the quick tier", ref="6 C10"),
  "C07": dict(engine="enum", technique="bounded-exhaustive enumeration of collector subsets x registration orders x all hash-map iteration orders (realised, not sampled) x registry configs on the real Registry vs. reference gather",
-   text="All subsets (size <=4, thorough 5) of a 9-collector pool of library metric types (+ an empty vector), every registration order, every registry-internal collect order (observed through a spy collector; registries rebuilt until all m! orders were seen), every iteration order of the common-label map and 6 registry configurations: each gather() equals the reference gather and all results for one registered set are identical.",
+   text="All subsets (size <=3, thorough 4) of a 16-collector pool of library metric types (incl. an empty vector, sibling vectors under one name, a name colliding with the registry prefix, equal-help collectors of different kinds, a 70-child family with prefix-related label values), every registration order, every registry-internal collect order (observed through a spy collector; registries rebuilt until all m! orders were seen), every iteration order of the common-label map and 6 registry configurations: each gather() equals the reference gather, also after one collector has been unregistered again, and all results for one registered set are identical.",
    note="pool and label values fixed; position of common labels inside the label list not prescribed, only its determinism", ref="6 C07"),
  "C14": dict(engine="enum", technique="bounded-exhaustive enumeration of collector subsets (incl. same-name different-kind collectors) x all orders on the real Registry; payload kind vs. declared type",
-   text="Over all subsets (size <=3, thorough 4) of a 12-collector pool incl. three same-name collectors of different kinds, all registration and iteration orders: every sample must carry exactly the payload of its family's declared type and the type must be order-independent. The pinned tree violates this for names registered under >=2 kinds (known finding F8, no small safe repair); any other violation is reported.",
+   text="Over all subsets (size <=3, thorough 4) of a 19-collector pool incl. three same-name collectors of different kinds, prefix-colliding names and equal-help collectors of different kinds, under plain / prefixed / labelled registries, all registration and iteration orders: every sample must carry exactly the payload of its family's declared type and the type must be order-independent. The pinned tree violates this for names registered under >=2 kinds (known finding F8, no small safe repair); any other violation is reported.",
    note="known finding keyed by 'family name registered under >=2 metric kinds'", ref="6 C14"),
  "C15": dict(engine="enum", technique="bounded-exhaustive enumeration of descriptors over adversarial pools, all pairs compared by grouping, all const-label map iteration orders realised",
-   text="All ~25k descriptors over boundary-shifting name/value/help pools with <=2 constant and <=2 variable labels are built through Desc::new (constant-label map in every iteration order) and through Opts (every insertion order); id / dim_hash equality must coincide with structural-key equality over all pairs (grouping both ways), rebuilds must agree.",
+   text="All ~25k descriptors over boundary-shifting name/value/help pools with <=2 constant and <=2 variable labels are built through Desc::new (constant-label map in every iteration order) and through Opts (every insertion order); id / dim_hash equality must coincide with structural-key equality over all pairs (grouping both ways), rebuilds must agree, also with other descriptors built in between (X, Y, X).",
    note="pool strings only; genuine 64-bit collisions exempt", ref="6 C15"),
  "C04": dict(engine="enum", technique="bounded-exhaustive enumeration of families/streams/call histories through all three text entry points, read back by an independent 0.0.4 parser",
-   text="Every family of a bounded adversarial generator (4 types x every float class in every float slot x 12 bucket/quantile shapes x label shapes with every string of an escape-heavy pool x timestamps), all pairs/triples of a basis as streams, gathered registry output and encode-call histories (failing writer at every byte, refused family, repeated encode, mutate-then-re-encode) is encoded by encode / encode_utf8 / encode_to_string: identical bytes, UTF-8, append-only, and the independent parser returns exactly the encoded families.",
+   text="Every family of a bounded adversarial generator (4 types x every float class in every float slot x 12 bucket/quantile shapes x label shapes with every string of an escape-heavy pool x timestamps), all pairs/triples of a basis as streams, very large tokens and families at every stream position, gathered registry output and encode-call histories (failing writer at every byte, refused family, repeated encode, mutate-then-re-encode) is encoded by encode / encode_utf8 / encode_to_string: identical bytes, UTF-8, append-only, and the independent parser returns exactly the encoded families.",
    note="string/float pools fixed; names valid; UNTYPED refused by the encoder (C17)", ref="6 C04"),
  "C13": dict(engine="enum", technique="bounded-exhaustive enumeration of families/streams/call histories through ProtobufEncoder, decoded by an independent wire decoder driven by proto_model.proto",
-   text="The same generator over all five metric types, streams, gathered output, refused families at every stream position and encode-call histories (failing writer at every byte offset, mutate through setters / public fields / clone then re-encode): the stream must frame exactly one length-delimited message per family and decode bit-exactly to the encoded families.",
+   text="The same generator over all five metric types, streams (incl. 64+ KiB families among small ones), gathered output, refused families at every stream position and encode-call histories (failing writer at every byte offset, mutate through setters / public fields / clone then re-encode): the stream must frame exactly one length-delimited message per family and decode bit-exactly to the encoded families.",
    note="decoder in harness/src/pbwire.rs trusted; schema read from the repo's .proto at run time", ref="6 C13"),
  "C16": dict(engine="enum", technique="bounded-exhaustive enumeration of API scenarios, executed by one program compiled under both feature configurations; transcripts compared byte for byte",
-   text="One scenario program is built twice against /repo (protobuf-backed and --no-default-features plain data model) and run over every scenario of a bounded grammar (collector subsets <=2 (thorough 3) of 12 kinds x all combinations of 5 update scripts x 5 registry configurations x re-gather after unregister); the bit-exact dumps of gather() and the TextEncoder output must be identical.",
+   text="One scenario program is built twice against /repo (protobuf-backed and --no-default-features plain data model) and run over every scenario of a bounded grammar (collector subsets <=2 (thorough 3) of 13 kinds (incl. a custom collector with hand-built families) x all combinations of 5 update scripts x 5 registry configurations x re-gather after unregister); the bit-exact dumps of gather() and the TextEncoder output must be identical.",
    note="scenario grammar fixed; only API common to both models is used", ref="6 C16"),
  "C20": dict(engine="enum", technique="bounded-exhaustive enumeration over generated programs: every macro arm x trailing comma written out as a call site, compiled against /repo and looped over a finite argument pool, compared with the explicit constructor",
-   text="A generated crate (regenerated and rebuilt on every run) contains every arm of labels!/opts!/histogram_opts!/register_*!/register_*_with_registry! with and without trailing comma (114 call sites); each is run over 216 argument cases x 3 target registries: descriptor and buckets equal the explicit constructor's, the updated handle's sample appears in exactly the named registry, a second identical invocation evaluates to Err.",
+   text="A generated crate (regenerated and rebuilt on every run) contains every arm of labels!/opts!/histogram_opts!/register_*!/register_*_with_registry! with and without trailing comma (114 call sites); each is run over 216 argument cases x 3 target registries: descriptor and buckets equal the explicit constructor's, the updated handle's sample appears in exactly the named registry, a second identical invocation evaluates to Err and leaves the first registration intact, and every macro argument expression is evaluated exactly once.",
    note="argument pools fixed; constructor panics inside the macros (invalid options) not judged", ref="6 C20"),
  "C19": dict(engine="enum", technique="bounded-exhaustive enumeration over generated programs: every declaration of a bounded grammar compiled (proc-macro expansion) against /repo and executed; children addressed vs. declared label values",
-   text="A generated workspace (regenerated and rebuilt on every run) holds every declaration of the grammar (11 metric forms incl. local and auto-flush, 1-3 labels (thorough 4) x inline/renamed/label_enum/renamed-enum kinds x 1-2 (3) values, every permutation of the label names in the backing vector) plus probe declarations using each local/field name of the generated code as value identifier; every leaf is updated by a distinct power of two through the field path, get(enum) and try_get(str), local forms flushed, and vec.collect() must show exactly the declared children with exactly their amounts.",
+   text="A generated workspace (regenerated and rebuilt on every run) holds every declaration of the grammar (11 metric forms incl. local and auto-flush, 1-3 labels (thorough 4) x inline/renamed/label_enum/renamed-enum/aliased kinds x 1-2 (3) values, every permutation of the label names in the backing vector) plus probe declarations using each local/field name of the generated code as value identifier; every leaf is updated by a distinct power of two through the field path, get(enum) and try_get(str), local forms flushed, and vec.collect() must show exactly the declared children with exactly their amounts.",
    note="known finding: first-label values named inner/last_flush/flush_millis clash with fields of the generated auto-flush structs (compile error)", ref="6 C19"),
 }
 
